@@ -70,7 +70,9 @@ def build(repo, spec_dir, canary=False):
     V('is_empty', clauses=[Clause('is_empty.eps', 'r ==> lang(*self) == eps()', ['C02', 'C16'])])
     V('precedence')
     V('len', requires=['alts_nonempty(*self)', 'wlen(*self) <= usize::MAX'], decreases='self',
-      clauses=[Clause('len.word_length', 'r == wlen(*self)', ['C08'])])
+      clauses=[Clause('len.word_length', 'r == wlen(*self)', ['C08']),
+               Clause('len.literal_counts_repeated_text', '(*self) is Literal ==> r == mlen(*self)', ['C08']),          # fails on the unchanged tree: KF3
+               Clause('len.matched_length_composed', '!((*self) is Literal) ==> r == mlen(*self)', ['C08'])])
     VS = 'value_spec(*self, match substring { Some(s) => Some(*s), None => None })'
     V('value', clauses=[Clause('value.spec', 'match r { Some(v) => %s == Some(v@), None => %s is None }' % (VS, VS), ['C02', 'C16'])], decreases='self')
     V('concatenate', clauses=[Clause(*c) for c in CONCAT_CLAUSES])
